@@ -309,6 +309,7 @@ class Interp:
         self.unknown_calls = []  # names of callees that returned TOP because nothing was known
         self.assert_hook = None  # fn(state, frame, term, outcome) for recording assert discharges
         self.on_unknown_call = None
+        self.cov = set()  # (instance id, bb) executed at least once
         self.binop_hooks = []  # fn(st, op, a, b, tid) -> value | None (extension values such as ordinals)
         self.overflow_hooks = []  # fn(st, base_op, a, b, tid) -> (result, flag) | None
 
@@ -609,7 +610,10 @@ class Interp:
         if k == "fn":
             return FnItem(c.get("inst"), c["name"])
         if k == "agg":
-            return Agg(c["ty"], c.get("variant", 0), [self.const_value(st, f) for f in c["fields"]])
+            ty = c["ty"]
+            if self.p.types[ty]["k"] in ("tuple", "array"):
+                ty = None
+            return Agg(ty, c.get("variant", 0), [self.const_value(st, f) for f in c["fields"]])
         if k == "ref":
             cell = st.new_obj(self.const_value(st, c["to"]))
             return Ref(("H", cell.id), ())
@@ -1174,6 +1178,7 @@ class Interp:
             f = st.frames[-1]
             inst = self.p.inst[f.inst]
             blk = inst["blocks"][f.bb]
+            self.cov.add((f.inst, f.bb))
             stmts = blk["s"]
             while f.si < len(stmts):
                 self.exec_stmt(st, f, stmts[f.si])
